@@ -5,6 +5,7 @@ pub mod c03;
 pub mod c04;
 pub mod c05;
 pub mod c09;
+pub mod c15;
 pub mod c17;
 pub mod c20;
 
@@ -16,6 +17,7 @@ pub fn run(id: &str, eng: &mut Engine) -> bool {
         "C04" => c04::run(eng),
         "C05" => c05::run(eng),
         "C09" => c09::run(eng),
+        "C15" => c15::run(eng),
         "C17" => c17::run(eng),
         "C20" => c20::run(eng),
         _ => return false,
